@@ -13,8 +13,10 @@ import build, os
 b = build.build('/verif/units/$u/unit.rs', '/repo', '$v')
 open('/verif/build/${u}_stab.rs','w').write(b.text)
 PY
+  RL=$(grep -oE "^//@ *rlimit +[0-9]+" units/$u/unit.rs | grep -oE "[0-9]+$"); RL=${RL:-100}
+  SO=$(grep -oE "^//@ *smtopt +[a-z_.]+=[a-z0-9_.]+" units/$u/unit.rs | awk '{print "--smt-option " $3}' | tr '\n' ' ')
   for s in $SEEDS; do
-    (cd build && verus ${u}_stab.rs --rlimit 40 --smt-option smt.random_seed=$s --output-json --time 2>/dev/null) | python3 -c "
+    (cd build && verus ${u}_stab.rs --rlimit $RL $SO --smt-option smt.random_seed=$s --output-json --time 2>/dev/null) | python3 -c "
 import json,sys
 try:
     d=json.load(sys.stdin)
